@@ -180,6 +180,13 @@ example : exWorld.WF := by
 example : (exWorld.run 2 [] 10 exLevel.body (St.init false) [true, false, true, false, false]).exit = .exc := by
   decide
 
+/-- the extra hypotheses of T11.4c / T11.4d are satisfiable: the observable fields `[0]` of `exLevel` are fields of its
+script; a world whose objects all carry the extracted mutators satisfies `hW` -/
+example : ∀ f ∈ (fun (_ : Key) => [0]) ([] : Key), f ∈ exLevel.fields := by
+  intro f hf; simpa [exLevel] using hf
+example : ∀ (k : Key), ∀ m ∈ (⟨fun _ => Gen.C11.scripts, fun _ => St.init false⟩ : World).scripts k,
+    m ∈ Gen.C11.scripts := fun _ _ h => h
+
 /-- the deep semantics does NOT build the contract in (the theorem is not true by construction): with an
 undisciplined child mutator ("assign, then raise") a rejected `call 0` leaves field 0 of the parent changed -/
 def exBadWorld : World := ⟨fun _ => [⟨"Bad.set", [0], seqs [.assign 0, .raise]⟩], fun _ => St.init false⟩
